@@ -5,6 +5,8 @@
 
 mod gen;
 mod groups;
+mod groups2;
+mod groups3;
 mod obs;
 mod obs2;
 mod strings;
@@ -63,7 +65,7 @@ pub const GAME_RANDOM_MAX_ACTIONS: [usize; 2] = [90, 260];
 pub const GAME_EXHAUSTIVE_LEN: [usize; 2] = [3, 4];
 pub const GAME_HIST_EVERY: usize = 5;
 /// pgn group: base random games (each replayed once per ending variant), maximum length.
-pub const PGN_BASE_GAMES: [usize; 2] = [36, 1_200];
+pub const PGN_BASE_GAMES: [usize; 2] = [14, 1_200];
 pub const PGN_MAX_PLIES: usize = 300;
 
 pub const SEEDS_FILE: &str = "/verif/harness/seeds.txt";
